@@ -430,12 +430,86 @@ def run(tier, seed):
         else:
             print("ENCODER-MISMATCH property=C14 rewriting model %s did not reproduce natively (%s -> %s)" % (v, there, back))
             inconclusive.append("rewriting model did not reproduce natively")
+    # ---- second sentence, get_new_path itself (base path spellings, old-locale prefix, query string, fragment)
+    import c14c
+    gnp = {"runs": 0, "unsat": 0, "sat": 0, "queries": 0, "paths": 0, "secs": 0.0, "native_requests": 0, "calls": set(), "samples": []}
+    gnp_models = []
+    try:
+        for nsegs in ((0, 1, 2) if tier == "quick" else (0, 1, 2, 3, 4)):
+            for locales, bn, sp, old, new in c14c.cases(tier):
+                r = c14c.decide_one(mir, locales, bn, sp, old, new, 60000 if tier == "quick" else 300000, nsegs)
+                gnp["runs"] += 1
+                gnp["queries"] += r["queries"]
+                gnp["paths"] += r["paths"]
+                gnp["secs"] += r["secs"]
+                gnp["calls"] |= set(r["calls"])
+                if len(gnp["samples"]) < 3:
+                    gnp["samples"].append({"locales": locales, "base_path": sp, "old": old, "new": new, "segments": nsegs, "status": r["status"], "paths": r["paths"]})
+                if r["status"] == "unsat":
+                    gnp["unsat"] += 1
+                elif r["status"] == "sat":
+                    gnp["sat"] += 1
+                    gnp_models.append(r["model"])
+                else:
+                    inconclusive.append("get_new_path %s base %r %s->%s, %d segments: %s %s" % (locales, sp, old, new, nsegs, r["status"], r.get("reason", "")))
+        solver_s += gnp["secs"]
+        # native validation of the summaries: concrete requests through the real function, every run
+        conc = []
+        for locales, bn, sp, old, new in c14c.cases(tier):
+            default = locales[0]
+            for rest, q, h in (("", "", ""), ("/about", "a=1&b=2", ""), ("/a-b/c", "", "top"), ("/x/y/z", "q", "f")):
+                pre = ("/" + bn if bn else "") + ("/" + old if (old or default) != default else "")
+                conc.append({"locales": locales, "pathname": (pre + rest) or "/", "search": q, "hash": h, "base_path": sp, "old": old, "new": new})
+        if tier == "quick":
+            conc = conc[seed % 5::5]
+        by_set = {}
+        for m in conc:
+            by_set.setdefault(tuple(m["locales"]), []).append(m)
+        for ls, ms in by_set.items():
+            outs = c14c.native(list(ls), ms)
+            gnp["native_requests"] += len(ms)
+            for m, real in zip(ms, outs):
+                exp = c14c.expected_concrete(m)
+                if real != exp:
+                    gnp_models.append(dict(m, encoded_result=None, expected=exp))
+    except Unsupported as e:
+        inconclusive.append("get_new_path: UNSUPPORTED %s" % e)
+    except Exception as e:
+        inconclusive.append("get_new_path: native stage failed: %s" % str(e)[-300:])
+    seen_roles = set()
+    for m in gnp_models:
+        role = c14c.witness_role(m)
+        if role in seen_roles:
+            continue
+        seen_roles.add(role)
+        sig = {"engine": "M", "fn": "get_new_path", "witness": role}
+        k = report.matches(sig, known, prop)
+        if k is not None:
+            print("KNOWN-FINDING: property=C14 %s" % k.get("description", k["id"]))
+            continue
+        try:
+            real = c14c.native(m["locales"], [m])[0]
+            replayed += 1
+        except Exception as e:
+            inconclusive.append("native replay of get_new_path failed: %s" % str(e)[-300:])
+            continue
+        rp = report.write_replay(prop, "get_new_path_%s" % role, {"model": m, "real_result": real, "signature": sig,
+                                 "how_to_replay": "inside an Owner: leptos_i18n_router::verif_hooks::get_new_path::<Locale>(pathname, search, hash, base_path, new, old, vec![]) in the replay crate"})
+        if real != m["expected"]:
+            print("VIOLATION property=C14 replay=%s" % rp)
+            print("  switching %s -> %s at %r (base path %r, query %r, fragment %r) navigates to %r, expected %r" % (m["old"], m["new"], m["pathname"], m["base_path"], m["search"], m["hash"], real, m["expected"]))
+            violations += 1
+            if violations >= 3:
+                break
+        else:
+            print("ENCODER-MISMATCH property=C14 get_new_path model %s did not reproduce natively (real %r)" % (m, real))
+            inconclusive.append("get_new_path model did not reproduce natively")
     wall = time.time() - t0
     report.write_evidence(prop, tier, seed, "model_checking", {
-        "evaluations": len(all_q), "distinct_nontrivial": max(2, len({(tuple(q["locales"]), q["locale"]) for q in all_q})),
+        "evaluations": len(all_q) + gnp["queries"], "distinct_nontrivial": max(2, len({(tuple(q["locales"]), q["locale"]) for q in all_q})),
         "rule": "one query per (locale set, returned locale): exists path, base path (bounded length) such that the function returns that locale although the first segment after the base differs",
         "samples": [{k: v for k, v in q.items()} for q in all_q[:4]] or [{"note": "no query"}],
-        "queries": len(all_q), "queries_unsat": sum(1 for q in all_q if q["status"] == "unsat"), "queries_sat": len(sat),
+        "queries": len(all_q) + gnp["queries"], "queries_unsat": sum(1 for q in all_q if q["status"] == "unsat"), "queries_sat": len(sat),
         "vacuity_witnesses": witnesses, "traces_validated_against_impl": replayed,
         "solver": "z3 %s strings" % z3.get_version_string(), "solver_s": round(solver_s, 3),
         "functions_encoded": ["leptos_i18n_router::routing::get_locale_from_path + closure(s), from rustc MIR regenerated this run",
@@ -443,7 +517,17 @@ def run(tier, seed):
         "url_rewriting": {"runs": [{k: v for k, v in r.items() if k not in ("mir_fns", "calls")} for r in rewrite_runs],
                           "property": "for 6 route shapes (static / param / optional / splat / unit / empty static, localized statics) and every path of n symbolic non-empty slash-free segments that matches locale A's segments: the path rewritten for locale B has the same number of segments, matches B's segments, and rewriting it back gives the original segments",
                           "mir_calls_summarised": sorted({c for r in rewrite_runs for c in r.get("calls", [])}),
-                          "outside": "get_new_path itself (Location signals, Mutex<HashMap> of route segments, query string and fragment), split of the path string into segments, match_nested / generate_routes"},
+                          "outside": "split of the path string into segments, match_nested / generate_routes"},
+        "get_new_path": {"runs": gnp["runs"], "unsat": gnp["unsat"], "sat": gnp["sat"], "queries": gnp["queries"], "paths": gnp["paths"], "solver_s": round(gnp["secs"], 3),
+                         "samples": gnp["samples"], "native_requests_compared": gnp["native_requests"], "mir_calls_summarised": sorted(gnp["calls"]),
+                         "functions_encoded": ["leptos_i18n_router::routing::get_new_path + its three closures, from rustc MIR regenerated this run"],
+                         "property": "for pathname = /<base>[/<old locale>](/<segment>)^n the result is /<base>[/<new locale>](/<segment>)^n ('/' if empty) + '?'+query if non-empty + '#'+fragment if non-empty; the locale prefix is present iff the locale is not the default",
+                         "bounds": "locale sets %s; base path spelled '', '/', 'foo', '/foo', 'foo/', '/foo/'; old locale None or any locale, new locale any other; n = 0..%d symbolic non-empty segments of <= 8 characters without '/', '?', '#' (first segment not a locale name when the URL has no locale prefix); query and fragment any strings of <= 4 characters; route table: each lookup present or absent" % (c14c.LOCALE_SETS, 2 if tier == "quick" else 4),
+                         "summaries": ["Memo::with_untracked(f) = f(&value)", "Mutex::lock().unwrap(), Arc / guard / Vec / String deref = identity", "HashMap::get = a free optional",
+                                       "PathBuilder = the string it will build: push trims '/' on both sides and skips empty pieces, build gives '/' for the empty builder (the MIR of push is decided in the kernel above)",
+                                       "localize_path = None without pushing, or Some(()) after pushing the path's segments unchanged (routes without localized segments; localized ones: kernel above)",
+                                       "strings are lists of concrete pieces and symbolic non-empty '/'-free segments: trim / strip_prefix / starts_with / is_empty are computed on that structure, strip_prefix forks on 'segment == pattern', 'pattern is a proper prefix', 'no match'; z3 decides the path conditions, result != expected, and that the paths cover the domain"],
+                         "outside": "paths with empty segments or a trailing slash, a base path that is a strict prefix of the first segment, update_path_effect / correct_locale_prefix_effect (effects, navigate), match_nested / generate_routes"},
         "mir_calls_summarised": sorted(calls),
         "bounds": "|path| <= %d, |base_path| <= %d characters, any characters; locale sets %s; path assumed to lie under the base path by whole segments. Outside: longer strings." % (max_path, max_base, LOCALE_SETS),
         "inconclusive": inconclusive,
